@@ -146,7 +146,7 @@ func cmdCheck(args []string) int {
 		}
 	}
 	// functions touching fields guarded under this property's tag
-	for _, fn := range e.guardedAccessors(*prop) {
+	for _, fn := range append(e.guardedAccessors(*prop), e.restrictedWriters(*prop)...) {
 		if !seenFn[fn] {
 			seenFn[fn] = true
 			fns = append(fns, fn)
@@ -154,34 +154,45 @@ func cmdCheck(args []string) int {
 	}
 	sort.Slice(fns, func(i, j int) bool { return fns[i].String() < fns[j].String() })
 
-	// ---- translate
-	type fres struct {
-		f *FnCtx
-	}
-	results := make([]*FnCtx, len(fns))
-	var wg sync.WaitGroup
-	sem := make(chan struct{}, 8)
-	for i, fn := range fns {
-		wg.Add(1)
-		go func(i int, fn *ssa.Function) {
-			defer wg.Done()
-			sem <- struct{}{}
-			defer func() { <-sem }()
-			f := newFnCtx(e, fn)
-			func() {
-				defer func() {
-					if r := recover(); r != nil {
-						f.fail("internal error while translating: %v", r)
-					}
+	// ---- translate (worklist: callees whose contracts were used are verified too)
+	e.curProp = *prop
+	var results []*FnCtx
+	pending := fns
+	for len(pending) > 0 {
+		batch := make([]*FnCtx, len(pending))
+		var wg sync.WaitGroup
+		for i, fn := range pending {
+			wg.Add(1)
+			go func(i int, fn *ssa.Function) {
+				defer wg.Done()
+				f := newFnCtx(e, fn)
+				func() {
+					defer func() {
+						if r := recover(); r != nil {
+							f.fail("internal error while translating: %v", r)
+						}
+					}()
+					engineMu.Lock()
+					defer engineMu.Unlock()
+					f.translate()
 				}()
-				engineMu.Lock()
-				defer engineMu.Unlock()
-				f.translate()
-			}()
-			results[i] = f
-		}(i, fn)
+				batch[i] = f
+			}(i, fn)
+		}
+		wg.Wait()
+		results = append(results, batch...)
+		pending = nil
+		for _, f := range batch {
+			for _, name := range sortedKeys(f.usedSpecs) {
+				fn := e.funcsByName[name]
+				if fn == nil || len(fn.Blocks) == 0 || seenFn[fn] {
+					continue
+				}
+				seenFn[fn] = true
+				pending = append(pending, fn)
+			}
+		}
 	}
-	wg.Wait()
 	transT := time.Since(start).Seconds() - loadT
 
 	// ---- lemmas
@@ -446,8 +457,10 @@ func fnShortName0(f *FnCtx) string {
 func (o *Obligation) discharge(e *Engine) {
 	f := o.f
 	if o.Cover {
+		f.mu.Lock()
 		assumes := f.assumptionsFor(o, -1)
 		o.Query = f.c.query(append(assumes, o.goal), "", false, "")
+		f.mu.Unlock()
 		o.Res = runQuery(o.Name, o.Query, e.timeoutS, e.seed, 1)
 		return
 	}
@@ -455,8 +468,10 @@ func (o *Obligation) discharge(e *Engine) {
 	total := 0.0
 	stages := []struct{ depth, timeout int }{{1, 3}, {3, 5}, {-1, e.timeoutS}}
 	for i, stg := range stages {
+		f.mu.Lock()
 		assumes := f.assumptionsFor(o, stg.depth)
 		q := f.c.query(assumes, o.goal, true, "")
+		f.mu.Unlock()
 		t := stg.timeout
 		if t > e.timeoutS {
 			t = e.timeoutS
@@ -593,7 +608,7 @@ func newLemmaCtx(e *Engine) *FnCtx {
 	f := &FnCtx{e: e, c: c, hs: newHeapSpace(c), abstr: map[string]int{}, exact: map[string]int{},
 		loopFrames: map[string]*loopFrame{}, sweep: map[string]bool{}, ifaceUsed: map[string]*types.Interface{},
 		oblNames: map[string]int{}, closures: map[string]*closureInfo{}, localAllocs: map[string]bool{}, callOrd: map[string]int{},
-		trusted: map[string]bool{}, inlined: map[string]bool{}}
+		trusted: map[string]bool{}, inlined: map[string]bool{}, usedSpecs: map[string]bool{}}
 	f.entryHeap = f.hs.entry()
 	return f
 }
@@ -610,4 +625,71 @@ func (f *FnCtx) addLemma(l *LemmaSpec) {
 	o := &Obligation{Name: "lemma:" + l.Name, Kind: "lemma", Tags: l.Tags, Src: l.Src, Line: l.Line, Func: "lemma", seg: st.seg, seq: f.seq, goal: v, f: f}
 	f.obls = append(f.obls, o)
 	f.finishGlobals()
+}
+
+// restrictedWriters: module functions that store to a final/private field
+// declared under tag p (each such store is a frame obligation).
+func (e *Engine) restrictedWriters(p string) []*ssa.Function {
+	fields := map[string]map[string]bool{}
+	for k, ts := range e.specs.types {
+		add := func(names []string) {
+			m := fields[k]
+			if m == nil {
+				m = map[string]bool{}
+				fields[k] = m
+			}
+			for _, n := range names {
+				m[n] = true
+			}
+		}
+		if hasTag(ts.FinalTags, p) {
+			add(ts.Final)
+		}
+		for _, pd := range ts.Private {
+			if hasTag(pd.Tags, p) {
+				add(pd.Fields)
+			}
+		}
+	}
+	if len(fields) == 0 {
+		return nil
+	}
+	var out []*ssa.Function
+	for _, fn := range e.funcsByName {
+		root := fn
+		for root.Parent() != nil {
+			root = root.Parent()
+		}
+		if root.Pkg == nil || !inModule(root.Pkg.Pkg) || fn.Synthetic != "" {
+			continue
+		}
+		touch := false
+		for _, b := range fn.Blocks {
+			for _, in := range b.Instrs {
+				st, ok := in.(*ssa.Store)
+				if !ok {
+					continue
+				}
+				fa, ok := st.Addr.(*ssa.FieldAddr)
+				if !ok {
+					continue
+				}
+				pt, ok := fa.X.Type().Underlying().(*types.Pointer)
+				if !ok {
+					continue
+				}
+				n, ok := pt.Elem().(*types.Named)
+				if !ok || n.Obj().Pkg() == nil {
+					continue
+				}
+				if m := fields[n.Obj().Pkg().Path()+"."+n.Obj().Name()]; m != nil && m[pt.Elem().Underlying().(*types.Struct).Field(fa.Field).Name()] {
+					touch = true
+				}
+			}
+		}
+		if touch {
+			out = append(out, fn)
+		}
+	}
+	return out
 }
